@@ -20,13 +20,24 @@ Section TypenameExec.
     field_definition sch tname s_typename = Ok (Some (FTypename, typename_fdef)).
   Proof. reflexivity. Qed.
 
+  (* completing the meta-field's value: String! applied to the type name *)
+  Lemma complete_value_typename tname nodes p :
+    complete_value sch tyres sub_exec nodes (f_type typename_fdef) p (PStr tname) = Ok (PStr tname, []).
+  Proof.
+    change (f_type typename_fdef) with (RNonNull (RNamed s_String)).
+    cbn [complete_value]. unfold complete_named. rewrite HString. reflexivity.
+  Qed.
+
+  Lemma complete_field_typename tname nodes p :
+    complete_field sch tyres sub_exec nodes (f_type typename_fdef) p (PStr tname) = Ok (PStr tname, []).
+  Proof. unfold complete_field. rewrite complete_value_typename. reflexivity. Qed.
+
   Lemma resolve_typename tname parent nodes p : nodes <> [] ->
     resolve_field sch coerce_args world tyres sub_exec tname parent FTypename typename_fdef nodes p
     = Ok (PStr tname, []).
   Proof.
     intros Hn. unfold resolve_field. destruct nodes as [|node nodes]; [contradiction|].
-    destruct (Hargs node) as [a Ha]. rewrite Ha.
-    simpl. unfold complete_named. rewrite HString. reflexivity.
+    destruct (Hargs node) as [a Ha]. rewrite Ha. apply complete_field_typename.
   Qed.
 
   (* every response key whose first node selects __typename carries the name
